@@ -239,7 +239,8 @@ def main():
         shown.add(k['id'])
         log('KNOWN-FINDING: property=%s %s (e.g. %s)' % (pid, k['what'], path))
     for jid, cx, path, why in violations[:10]:
-        log('VIOLATION property=%s replay=%s   [%s] %s' % (pid, path, jid, cx.get('oracle', '')[:200]))
+        log('VIOLATION property=%s replay=%s' % (pid, path))
+        log('    [%s] %s' % (jid, cx.get('oracle', '')[:300]))
     if not args.no_evidence:
         write_evidence(pid, tier, seed, t0, specs, results, violations, inconclusive_reasons, knowns, replays, idx)
     n_pass = sum(1 for r in results if r['status'] == 'pass')
